@@ -39,8 +39,8 @@ type reachEdge struct {
 }
 
 type reachGraph struct {
-	mu sync.Mutex
-	edges map[*ssa.Function][]reachEdge
+	mu        sync.Mutex
+	edges     map[*ssa.Function][]reachEdge
 	P         *Program
 	all       []*ssa.Function
 	addrTaken []*ssa.Function
